@@ -359,8 +359,8 @@ static ChildOut run_in_child(const Plan &p, const std::string &checkprop) {
         out.crashed = true;
         out.crash_text = read_file(errf);
         out.cls = classify_crash(out.crash_text, out.detail);
-        if (checkprop != "C01" && checkprop != "C18") out.cls = "C01:" + out.cls.substr(4); // still a C01-class event
-        if (checkprop == "C18") out.cls = "C18:" + out.cls.substr(4);
+        // a crash while the property's own workload runs breaks that property as well (the expected reaction never comes)
+        out.cls = checkprop + ":" + out.cls.substr(4);
     }
     unlink(errf.c_str());
     return out;
@@ -509,6 +509,7 @@ static void worker_main(int wid, int nworkers, const std::string &prop, uint64_t
         if (nontriv) { a.nontrivial++; a.distinct.insert(r.abstract ^ (r.hash * 0)); if (a.samples.size() < 3) a.samples.push_back(plan_sample(p)); }
         if (const Violation *v = relevant(prop, r)) {
             a.violations.push_back({idx, vclass(*v) + "\t" + v->detail});
+            { std::ofstream vf(resfile + ".viol", std::ios::app); vf << "viol " << idx << " " << vclass(*v) << "\t" << v->detail << "\n"; }
             if (a.violations.size() > 200) break;
         }
         // determinism self-check on a sample of seeds: same plan, same log hash
@@ -668,7 +669,11 @@ int main(int argc, char **argv) {
         }
     }
     Agg a;
-    for (auto &f : resfiles) { read_agg(a, f); unlink(f.c_str()); }
+    for (auto &f : resfiles) {
+        read_agg(a, f); unlink(f.c_str());
+        Agg extra; read_agg(extra, f + ".viol"); unlink((f + ".viol").c_str());
+        for (auto &v : extra.violations) a.violations.push_back(v);
+    }
     for (int w = 0; w < workers; w++) unlink((tmpdir + "/w" + std::to_string(w) + "." + std::to_string(getpid()) + ".err").c_str());
     double t_search = now_s() - t_start;
 
@@ -682,7 +687,7 @@ int main(int argc, char **argv) {
     }
     for (auto &c : crashes) {
         std::string det, cls = classify_crash(c.second, det);
-        if (prop == "C18") cls = "C18:" + cls.substr(4);
+        cls = prop + ":" + cls.substr(4);
         if (!by_class.count(cls) || c.first < by_class[cls].first) by_class[cls] = {c.first, det};
     }
     int n_viol = 0, n_known = 0, harness_fault = 0;
